@@ -16,6 +16,13 @@ Oracle (from the statement):
            location-free dump (ast.dump without attributes: string constants, macro raw texts and
            subprocess argument strings are repr()ed, i.e. compared byte for byte).  Not applied to
            the prefix family (those inputs exist for the reject / idem / comment clauses).
+  file     (canonical, CRLF, file-ending, prefix, non-ASCII and indentation cases) the same through
+           the real CLI entry point on a real file: --check / --diff leave the bytes alone, in-place
+           leaves exactly format_source(original) encoded, a second run agrees with format_source
+           again, exit status 0 / 1 (change needed, --check/--diff) / 123 (rejected);
+  indent   for the indentation family the reference for "cannot be tokenised" is CPython's own
+           tokenizer (unindent does not match any outer indentation level), independent of
+           xonsh's tokenizer: the formatter must refuse those files and leave them alone.
   A formatter call that does not return within 15 s on un-tokenisable input is a violation of
   "rejected with an error"; after 3 hangs per worker the rest is skipped and exhaustive=false.
 
@@ -31,7 +38,13 @@ Does NOT require (never flagged):
   * CR LF line ends to survive: files are read in text mode by both `xonsh format` and xonsh's
     script loader, so CRLF layouts go through the CLI file path and are compared after universal
     newline translation;
-  * --check/--diff behaviour, exit codes, messages.
+  * the wording of messages / diffs (only: --check and --diff never modify the file, and the exit
+    status says whether a change is / was needed: 0, 1 in --check/--diff when a change is needed,
+    123 on a rejected file - the CLI's documented contract);
+  * rejection of programs that are tokenisable but not parsable (unexpected indent, missing block):
+    the statement's rejection clause is about tokenisation;
+  * any verdict on tab/space ambiguity (CPython's TabError): xonsh's tokenizer counts a tab as "to
+    the next multiple of 8" and accepts such files.
 """
 
 import ast
@@ -164,41 +177,91 @@ def _comments(toks):
     return [t.string.strip() for t in toks if t.type == COMMENT]
 
 
-def _cli_file(data: bytes):
-    """Run the CLI's per-file function on a scratch file holding `data`.
-    -> (outcome, bytes after).  outcome: 'changed'|'unchanged'|'FormatError'|other exception name."""
-    import argparse
+def _cli_run(argv):
+    """The real CLI entry point (`xonsh format ...` dispatches to xonsh.formatter.cli.main) in
+    process.  -> exit status (int) or the name of what came out instead."""
     import contextlib
 
     import xonsh.formatter.cli as cli
 
-    path = os.path.join(_SCRATCH, "case.xsh")
-    with open(path, "wb") as f:
-        f.write(data)
-    args = argparse.Namespace(check=False, diff=False, quiet=True, files=[path])
-    fn = getattr(cli, "_process_one", None)
     signal.setitimer(signal.ITIMER_REAL, _FMT_TIMEOUT)
     try:
         with contextlib.redirect_stderr(io.StringIO()), contextlib.redirect_stdout(io.StringIO()):
-            if fn is not None:
-                rc = fn(path, args)
-                outcome = "changed" if rc else "unchanged"
-            else:  # fall back to the whole CLI
-                rc = cli.main(["-q", path])
-                outcome = "FormatError" if rc == cli.EXIT_ERROR else "ran"
-    except cli.FormatError:
-        outcome = "FormatError"
-    except UnicodeDecodeError:
-        outcome = "UnicodeDecodeError"
+            rc = cli.main(list(argv))
+        return rc if isinstance(rc, int) else repr(rc)
+    except SystemExit as e:
+        return f"SystemExit({e.code})"
     except _Timeout:
-        outcome = "hang"
+        return "hang"
     except Exception as e:  # noqa: BLE001
-        outcome = type(e).__name__
+        return type(e).__name__
     finally:
         signal.setitimer(signal.ITIMER_REAL, 0)
-    with open(path, "rb") as f:
-        after = f.read()
-    return outcome, after
+
+
+def _cli_protocol(data: bytes, full=True):
+    """Write `data` to a real file and run the CLI on it in every mode: --check, --diff, in place,
+    in place again.  -> {mode: (exit status, file bytes afterwards)}"""
+    path = os.path.join(_SCRATCH, "case.xsh")
+    obs = {}
+    for mode, flags in (("check", ["--check"]), ("diff", ["--diff"]), ("inplace", []), ("inplace2", [])):
+        if not full and mode in ("check", "diff"):
+            continue  # layout variants of a form: the two read-only modes are run on its canonical text
+        if mode != "inplace2":
+            with open(path, "wb") as f:
+                f.write(data)
+        rc = _cli_run(["-q", *flags, path])
+        with open(path, "rb") as f:
+            obs[mode] = (rc, f.read())
+    return obs
+
+
+def _show(b: bytes):
+    return b.decode("utf-8", "backslashreplace")
+
+
+def _cli_clauses(data, text, out, viols, rejected=None, full=True):
+    """The file-path clauses.  `out` = format_source(text) (None when the input must be rejected,
+    `rejected` then names why): --check / --diff never modify the file, in-place leaves exactly
+    format_source's result (or the untouched bytes), a second run agrees with format_source again,
+    and the exit status tells what happened (0 / 1 = would change in --check/--diff / 123 = error)."""
+    obs = _cli_protocol(data, full)
+    if out is None:
+        for mode in ("check", "diff", "inplace"):
+            if mode not in obs:
+                continue
+            rc, after = obs[mode]
+            if after != data:
+                viols.append(dict(key=f"reject:file-rewritten:{rejected}" + ("" if mode == "inplace" else f":--{mode}"), clause="rejected input is never rewritten", observed={"cli_mode": mode, "exit": rc, "bytes_after": _show(after)}, expected="file bytes unchanged"))
+            elif rc != 123:
+                viols.append(dict(key=f"reject:exit-status:{rejected}:{mode}:{rc}", clause="rejected input is reported as an error", observed={"cli_mode": mode, "exit": rc}, expected="exit status 123 (error)"))
+        return
+    changed = out != text
+    want = out.encode("utf-8") if changed else data
+    for mode in ("check", "diff"):
+        if mode not in obs:
+            continue
+        rc, after = obs[mode]
+        if after != data:
+            viols.append(dict(key=f"cli:--{mode}-modified-the-file", clause=f"--{mode} does not write the file back", observed={"exit": rc, "bytes_after": _show(after)}, expected="file bytes unchanged"))
+        elif rc != (1 if changed else 0):
+            viols.append(dict(key=f"cli:exit-status:--{mode}:{rc}-want-{1 if changed else 0}", clause="the exit status tells whether a change is needed", observed={"exit": rc, "change_needed": changed}, expected=1 if changed else 0))
+    rc, after = obs["inplace"]
+    if after != want:
+        try:
+            after.decode("utf-8")
+            kind = "tail-lost" if want.startswith(after) else "untouched" if after == data else "tail-garbage" if after.startswith(want) else "differs"
+        except UnicodeDecodeError:
+            kind = "invalid-utf8"
+        viols.append(dict(key=f"cli:in-place-result:{kind}", clause="the file afterwards holds exactly format_source(original)", observed={"exit": rc, "file": _show(after)}, expected=_show(want)))
+        return
+    if rc != 0:
+        viols.append(dict(key=f"cli:exit-status:in-place:{rc}-want-0", clause="the exit status tells what happened", observed={"exit": rc}, expected=0))
+    rc2, after2 = obs["inplace2"]
+    r2 = _fmt(out) if changed else ("ok", out)
+    want2 = r2[1].encode("utf-8") if (r2[0] == "ok" and r2[1] != out) else after
+    if after2 != want2:
+        viols.append(dict(key="cli:second-run-disagrees-with-format_source", clause="a second run leaves format_source(file) (normally: changes nothing)", observed={"exit": rc2, "file": _show(after2)}, expected=_show(want2)))
 
 
 # ---------------------------------------------------------------- failure signatures (root-cause keys)
@@ -767,7 +830,26 @@ def _tree_key(src, out, tin, tout):
 # ---------------------------------------------------------------- one case
 
 
-def evaluate(src, file_path=False, tree_clause=True):
+def _ref_bad_dedent(text):
+    """Independent reference for the indentation family (plain Python skeletons, where the two
+    languages coincide): CPython's own tokenizer refuses the text with 'unindent does not match
+    any outer indentation level'.  TabError (tab/space ambiguity) is no verdict: xonsh's tokenizer
+    deliberately counts a tab as 'to the next multiple of 8'."""
+    import tokenize as pytok
+
+    try:
+        for _t in pytok.generate_tokens(io.StringIO(text).readline):
+            pass
+    except TabError:
+        return False
+    except IndentationError:
+        return True
+    except Exception:  # noqa: BLE001
+        return False
+    return False
+
+
+def evaluate(src, file_path=False, tree_clause=True, indent_ref=False, cli_full=True):
     """Apply every clause of the statement to one program text.
     -> (flags dict, [violation dicts without 'case'])"""
     flags = {}
@@ -781,6 +863,12 @@ def evaluate(src, file_path=False, tree_clause=True):
         text = src.replace("\r\n", "\n").replace("\r", "\n")
         if text != src:
             toks, tokerr = _tokens(text)
+    if indent_ref and _ref_bad_dedent(text):
+        flags["rejected_by_indent_reference"] = 1
+        if toks is not None:
+            # xonsh's own tokenizer lets through what the reference refuses
+            flags["tokenizer_disagrees_with_indent_reference"] = 1
+            toks, tokerr = None, "bad-dedent(CPython-reference)"
     if toks is None:
         flags["untokenisable"] = 1
         res = _fmt(text)
@@ -792,9 +880,7 @@ def evaluate(src, file_path=False, tree_clause=True):
         if res == ("crash", "hang"):
             viols.append(dict(key=f"reject:hang:{tokerr}", clause="input that cannot be tokenised is rejected with an error", observed=f"format_source did not return within {_FMT_TIMEOUT} s", expected=f"FormatError (tokenize raises {tokerr})"))
             return flags, viols
-        outcome, after = _cli_file(data)
-        if after != data:
-            viols.append(dict(key=f"reject:file-rewritten:{tokerr}", clause="rejected input is never rewritten", observed={"cli": outcome, "bytes_after": after.decode("utf-8", "replace")}, expected="file bytes unchanged"))
+        _cli_clauses(data, text, None, viols, rejected=tokerr, full=cli_full)
         return flags, viols
     res = _fmt(text)
     if res[0] != "ok":
@@ -807,12 +893,8 @@ def evaluate(src, file_path=False, tree_clause=True):
     out = res[1]
     flags["accepted"] = 1
     if file_path:
-        outcome, after = _cli_file(data)
         flags["cli"] = 1
-        got = after.decode("utf-8", "replace")
-        want = out if outcome == "changed" else text
-        if outcome not in ("changed", "unchanged") or (outcome == "changed" and got != out) or (outcome == "unchanged" and (after != data or out != text)):
-            viols.append(dict(key=f"cli:file-differs-from-format_source:{outcome}", clause="the CLI writes exactly format_source's result (or nothing)", observed={"cli": outcome, "file": got}, expected=want))
+        _cli_clauses(data, text, out, viols, full=cli_full)
     # idempotence
     res2 = _fmt(out)
     if res2 != res:
@@ -894,11 +976,12 @@ def _do_form(item):
     counts = {}
     seen_src = set()
     memo = {}
+    canon_text = space.render(lines, {})
 
     def ev(src, file_path, tree_clause=True):
         mk = (src, file_path, tree_clause)
         if mk not in memo:
-            memo[mk] = evaluate(src, file_path=file_path, tree_clause=tree_clause)
+            memo[mk] = evaluate(src, file_path=file_path, tree_clause=tree_clause, cli_full=src == canon_text)
         return memo[mk]
 
     def ev_devs(devs):
@@ -966,12 +1049,46 @@ def _do_form(item):
     return {"stats": stats, "viols": [b[1] for b in best.values()], "counts": counts}
 
 
+_EXTRA = {}
+_EXTRA_SHARDS = 16
+
+
+def _do_extra(item):
+    """One shard of the file-path (non-ASCII) family or of the indentation family."""
+    fam, shard, nshards = item
+    stats, best, counts = {}, {}, {}
+    for idx, src in enumerate(_EXTRA[fam]):
+        if idx % nshards != shard:
+            continue
+        flags, viols = evaluate(src, file_path=True, indent_ref=(fam == "indent"))
+        stats["evaluations"] = stats.get("evaluations", 0) + 1
+        stats["distinct"] = stats.get("distinct", 0) + 1
+        stats[fam + "_cases"] = stats.get(fam + "_cases", 0) + 1
+        for f in flags:
+            stats[f] = stats.get(f, 0) + 1
+        for v in viols:
+            counts[v["key"]] = counts.get(v["key"], 0) + 1
+            v = dict(v, case={"family": fam, "devs": [], "src": src})
+            r = _case_rank(v["case"])
+            if v["key"] not in best or r < best[v["key"]][0]:
+                best[v["key"]] = (r, v)
+    _parse_cache.clear()
+    _fmt_cache.clear()
+    return {"stats": stats, "viols": [b[1] for b in best.values()], "counts": counts}
+
+
+def _do_item(item):
+    return _do_extra(item) if isinstance(item[0], str) else _do_form(item)
+
+
 def _configure(ctx):
     global _FORMS, _K, _KCORE, _NPARTS
     _FORMS = [(fam, core, text) for fam, core, quick, text in space.forms() if ctx.thorough or quick]
     _K = 1
     _KCORE = 2 if ctx.thorough else 1
     _NPARTS = 8 if ctx.thorough else 1
+    _EXTRA["uni"] = space.uni_sources()
+    _EXTRA["indent"] = space.indent_sources(ctx.thorough)
 
 
 def run(ctx):
@@ -984,7 +1101,8 @@ def run(ctx):
         nparts = _NPARTS if _FORMS[fi][1] else 1
         items += [(fi, p, nparts) for p in range(nparts)]
     ctx.log(f"{len(_FORMS)} forms ({sum(1 for f in _FORMS if f[1])} core at k={_KCORE}, rest at k={_K}); {len(items)} work items")
-    res = common.pmap(_do_form, items, ctx.jobs, chunk=1, init=_init_worker, seed=ctx.seed)
+    items += [(fam, sh, _EXTRA_SHARDS) for fam in ("uni", "indent") for sh in range(_EXTRA_SHARDS)]
+    res = common.pmap(_do_item, items, ctx.jobs, chunk=1, init=_init_worker, seed=ctx.seed)
     stats = {}
     counts = {}
     best = {}
@@ -1019,7 +1137,10 @@ def run(ctx):
             f"{len(space.PRE)} pre-line, {len(space.POST)} post-line, {len(space.INDENTS)} indent units, CRLF, {len(space.FINALS)} file endings; for core forms also "
             f"{len(space.PRELUDES)} preludes = one of {len(space.LINESEP_CHARS)} characters that str.splitlines() but not the tokenizer treats as a line boundary (FF VT FS NEL U+2028) "
             f"x {len(space.PRELUDE_PLACES)} places (one-line string, triple-quoted string, comment, leading white space), followed by the form and a tail of line-look-up dependent constructs); k={_K} for all forms, "
-            f"k={_KCORE} for the core forms (pairs over the reduced alphabet); plus every proper prefix of each core form's canonical text (tokenisation clause). "
+            f"k={_KCORE} for the core forms (pairs over the reduced alphabet); plus every proper prefix of each core form's canonical text (tokenisation clause); "
+            f"plus {len(_EXTRA['uni'])} non-ASCII sources ({len(space.UNI_LINES)+1} pre x {len(space.UNI_BODIES)} bodies x {len(space.UNI_LINES)+1} post lines with 2/3/4-byte characters) and every "
+            f"canonical / CRLF / file-ending / prefix case through the real CLI on a real file in --check, --diff, in-place and in-place-again mode; "
+            f"plus {len(_EXTRA['indent'])} indentation sequences (3..5 lines over columns 0 2 4 8 and tab) judged against CPython's tokenizer. "
             "non-trivial = distinct program texts that xonsh's parser accepted, i.e. that reached the tree comparison"
         ),
         exhaustive=not stats.get("skipped_after_hangs", 0),
@@ -1037,6 +1158,10 @@ def run(ctx):
         changed_by_formatter=stats.get("changed", 0),
         with_comments=stats.get("has_comment", 0),
         through_cli_file=stats.get("cli", 0),
+        nonascii_file_path_cases=stats.get("uni_cases", 0),
+        indentation_sequence_cases=stats.get("indent_cases", 0),
+        indentation_cases_refused_by_cpython_reference=stats.get("rejected_by_indent_reference", 0),
+        indentation_cases_where_xonsh_tokenizer_disagrees_with_reference=stats.get("tokenizer_disagrees_with_indent_reference", 0),
         linesep_prelude_cases=stats.get("prelude_cases", 0),
         linesep_prelude_cases_reaching_tree_comparison=stats.get("prelude_cases_reaching_tree_comparison", 0),
         prefix_cases=stats.get("prefix_cases", 0),
@@ -1066,7 +1191,7 @@ def replay(rec):
             print("note: the recorded layout no longer renders to the recorded text; replaying the recorded text")
     d = dict(space.devs_from_json(case.get("devs", [])))
     file_path = ("eol",) in d or ("final",) in d or not d or "cut" in case
-    flags, viols = evaluate(src, file_path=file_path, tree_clause="cut" not in case)
+    flags, viols = evaluate(src, file_path=file_path, tree_clause="cut" not in case, indent_ref=case.get("family") == "indent")
     print("input   :", repr(src))
     print("fmt     :", repr(_fmt(src.replace("\r\n", "\n") if file_path else src)))
     hit = [v for v in viols if v["key"] == rec["key"]]
